@@ -1,6 +1,6 @@
 #!/usr/bin/env python3
 """Run /repo's pinned test suite (guard OFF) and compare with /root/.vp/BASELINE.json stable_pass.
-usage: baseline.py [-n N]   exit 0 iff every stable_pass test passed."""
+usage: [VERIF_REPO=<worktree>] baseline.py [-n N]   exit 0 iff every stable_pass test passed."""
 import json, os, subprocess, sys, tempfile, xml.etree.ElementTree as ET
 n = None
 if "-n" in sys.argv:
@@ -14,7 +14,9 @@ if n:
     cmd += ["-n", n]
 env = dict(os.environ)
 env.pop("FANDANGO_VERIF", None)
-r = subprocess.run(cmd, cwd="/repo", env=env, stdout=subprocess.PIPE, stderr=subprocess.STDOUT, text=True)
+repo = os.environ.get("VERIF_REPO", "/repo")
+env["PYTHONPATH"] = repo + "/src"
+r = subprocess.run(cmd, cwd=repo, env=env, stdout=subprocess.PIPE, stderr=subprocess.STDOUT, text=True)
 print(r.stdout[-1500:])
 passed = set()
 for tc in ET.parse(out).getroot().iter("testcase"):
